@@ -190,18 +190,22 @@ func oracleC26(v *View, vd *Verdict) {
 		}
 		// every broker message matching a live subscription reaches that subscription's handler
 		stopIdx := int(^uint(0) >> 1)
+		stopT := int64(1) << 62
 		for _, a := range calls {
 			if a.client == cp.Name && (a.op == "disconnect" || a.op == "close" || (a.returned && a.err != "nil") || !a.returned) && a.invIdx < stopIdx {
 				stopIdx = a.invIdx
+				stopT = a.invT
 			}
 		}
+		// an exchange needs its round trips (two through a slow broker for QoS 2) before the client leaves
+		grace := 2*v.R.Plan.Broker.AnswerDelayMs*nsMs + int64(1e9) + v.R.StalledNs
 		got := map[string]int{}
 		for _, c := range hc {
 			got[string(c.payload)]++
 		}
 		for _, e := range btx {
 			m := e.MQ
-			if m.Type != refmqtt.PUBLISH || e.Idx > stopIdx || v.R.SimNs-e.T < int64(8e9) {
+			if m.Type != refmqtt.PUBLISH || e.Idx > stopIdx || e.T > stopT-grace || v.R.SimNs-e.T < int64(8e9) {
 				continue
 			}
 			live := false
